@@ -1,0 +1,20 @@
+//go:build verif
+
+package tglib
+
+import (
+	"os"
+	"strconv"
+
+	"github.com/ishidawataru/sctp"
+)
+
+func verifConn() *sctp.SCTPConn {
+	if s := os.Getenv("STGUTG_VERIF_FD"); s != "" {
+		fd, err := strconv.Atoi(s)
+		if err == nil {
+			return sctp.NewSCTPConn(fd, nil)
+		}
+	}
+	return nil
+}
